@@ -889,18 +889,27 @@ def corner_histories():
 def stage_corners(rep, rng):
     bad = 0
     cs = corner_histories()
-    for i, (label, proj, edits) in enumerate(cs):
-        bad += history(rep, rng, proj, len(edits), 900 + i, forced_edits=edits, label=label)
+    # histories are independent (own scratch dirs, own PRNG derived from the run's PRNG): run them concurrently
+    from concurrent.futures import ThreadPoolExecutor
+    jobs = [(random.Random(rng.getrandbits(64)), proj, len(edits), 900 + i, edits, label) for i, (label, proj, edits) in enumerate(cs)]
+    with ThreadPoolExecutor(max_workers=6) as ex:
+        for r in ex.map(lambda j: history(rep, j[0], j[1], j[2], j[3], forced_edits=j[4], label=j[5]), jobs):
+            bad += r
     rep.stage('system:corner-histories', histories=len(cs), failures_not_known=bad)
     return bad
 
 
 def stage_system(rep, rng, nhist, nsteps):
     bad = 0
+    from concurrent.futures import ThreadPoolExecutor
+    jobs = []
     for h in range(nhist):
         force = {'pkg': h % 2 == 1}
         proj = gen_project(rng, force)
-        bad += history(rep, rng, proj, nsteps, h)
+        jobs.append((random.Random(rng.getrandbits(64)), proj, h))
+    with ThreadPoolExecutor(max_workers=6) as ex:
+        for r in ex.map(lambda j: history(rep, j[0], j[1], nsteps, j[2]), jobs):
+            bad += r
     rep.stage('system:histories', histories=nhist, steps_each=nsteps, failures=bad)
     return bad
 
